@@ -108,7 +108,7 @@ Verdict(j) ==
         expl |-> IF pn # <<>> /\ pd = <<>> THEN Explain(c, lx) ELSE {},
         \* LayoutInv (C15) on the specification itself: the text was rendered from tree c.want
         layoutinv |-> li,
-        spec |-> IF lc = <<>> /\ pn = <<>> /\ li
+        spec |-> IF lc = <<>> /\ pn = <<>> /\ pd = <<>> /\ li
                  THEN [ok |-> TRUE]      \* what the specification expected, for the report
                  ELSE [toks |-> [k \in DOMAIN lx.toks |-> [type |-> lx.toks[k].type, text |-> lx.toks[k].text,
                                                          line |-> lx.toks[k].line, ilineno |-> lx.toks[k].ilineno]],
